@@ -658,6 +658,30 @@ pub fn contextual_label(p: &Pools, rng: &mut Rng) -> String {
     s
 }
 
+/// core text wrapped in runs of white space of every kind: ASCII space, other Zs,
+/// and White_Space characters that are NOT Zs (controls, line/paragraph separators)
+pub fn edge_whitespace(p: &Pools, rng: &mut Rng, core: &str) -> String {
+    const WS: [char; 12] = [' ', ' ', '\t', '\n', '\r', '\u{B}', '\u{C}', '\u{85}', '\u{2028}', '\u{2029}', '\u{A0}', '\u{3000}'];
+    let mut s = String::new();
+    let run = |rng: &mut Rng, s: &mut String| {
+        for _ in 0..rng.below(4) {
+            if rng.chance(1, 4) {
+                s.push(*rng.pick(&p.zs));
+            } else {
+                s.push(*rng.pick(&WS));
+            }
+        }
+    };
+    run(rng, &mut s);
+    s.push_str(core);
+    if rng.chance(1, 3) {
+        run(rng, &mut s);
+        s.push_str(core);
+    }
+    run(rng, &mut s);
+    s
+}
+
 /// single edit of a label: delete, duplicate, replace, insert, swap
 pub fn mutate(p: &Pools, rng: &mut Rng, s: &str, mix: Mix) -> String {
     let mut cs: Vec<char> = s.chars().collect();
